@@ -1,7 +1,7 @@
 use crate::packets::{PingReq, PubAck, PubComp, PubRec, PubRel, PublishHeader};
 use crate::publication::ToPayload;
 use crate::ser::{MAX_FIXED_HEADER_SIZE, MqttSerializer};
-use crate::wire::ControlPacket;
+use crate::wire::{ControlPacket, MessageType};
 use crate::{Error, ProtocolError, PubError, ReasonCode, ResourceError, error, trace};
 use heapless::Vec;
 
@@ -166,6 +166,16 @@ impl<'a> Outbound<'a> {
 
     pub(super) fn max_inflight(&self) -> u16 {
         MAX_RETAINED.min(MAX_PENDING_RELEASE) as u16
+    }
+
+    /// Number of QoS 1/2 publishes that still count against the broker's Receive Maximum:
+    /// retained `PUBLISH` packets plus exchanges waiting for `PUBCOMP`.
+    pub(super) fn unresolved_publishes(&self) -> usize {
+        self.retained
+            .iter()
+            .filter(|entry| self.buf[entry.offset] >> 4 == MessageType::Publish as u8)
+            .count()
+            + self.pending_release.len()
     }
 
     fn used_after_compact(&self) -> usize {
